@@ -280,6 +280,13 @@ pub fn run_session(sess: &J, out: &mut TraceOut) -> Result<(), String> {
                 return Ok(());
             }
         };
+        // a database that has outgrown what the trace specification re-computes in reasonable time ends
+        // the session here (the event is not emitted; the prefix recorded so far is still validated)
+        let nrows: usize = tabs.as_array().map(|t| t.iter().map(|x| x.as_array().map(|a| a.len()).unwrap_or(0)).sum()).unwrap_or(0);
+        if nrows > sess["maxrows"].as_u64().unwrap_or(150) as usize {
+            out.truncated += 1;
+            return Ok(());
+        }
         let (oj, upd) = outputs_json(&outs);
         let mut ev = json!({"e": "cmd", "i": i, "c": st["c"], "text": text, "res": res, "msg": msg,
                             "tabs": tabs, "canon": canon, "cont": cont, "outs": oj});
@@ -309,7 +316,8 @@ pub fn main(args: &[String]) -> Result<(), String> {
         run_session(&sess, &mut out)?;
         n += 1;
     }
+    let tr = out.truncated;
     let ev = out.finish();
-    println!("{{\"sessions\": {n}, \"events\": {ev}}}");
+    println!("{{\"sessions\": {n}, \"events\": {ev}, \"truncated\": {tr}}}");
     Ok(())
 }
